@@ -15,5 +15,6 @@ CONSTANTS
   MaxFail = 1
   AllowSkip = TRUE
   AllowStop = TRUE
+  AllowBail = FALSE
 INVARIANTS TypeOK Asserts Ownership OnceInOrder Deterministic ErrorsAccountedR WaitSane
 CHECK_DEADLOCK TRUE
